@@ -141,7 +141,8 @@ def run(case, ctx):
         call(S_.validate, Dshared)
     for n, (si, ti, rterm) in enumerate(case["adds"]):
         si, ti = si % len(Ss), ti % len(Ts)
-        R = build.path_obj(rterm)
+        # (sometimes the root path object the caller has at hand is bound to some other document)
+        R = build.path_obj(rterm, source_data={"other": {"x": "unrelated"}}) if (n + len(rterm["parts"])) % 4 == 0 else build.path_obj(rterm)
         ok, _ = call(Ss[si].add_schema, Ts[ti], R)
         if not ok:
             ctx.violate(f"C18/{_.key()}", f"add_schema #{n} raised {_!r}")
